@@ -36,6 +36,9 @@ _FTYPE = {wire.F_PATH: b"o", wire.F_INTERFACE: b"s", wire.F_MEMBER: b"s", wire.F
           wire.F_DESTINATION: b"s", wire.F_SENDER: b"s", wire.F_CONTAINER_INSTANCE: b"o",
           wire.F_REPLY_SERIAL: b"u"}
 _ALL_SETTABLE = (1, 2, 3, 4, 5, 6, 7, 10)
+# a smaller quarantine than ASan's 256 MiB default: the harness frees hundreds of thousands of small blocks
+# per batch, and 16 workers x 2 GiB of quarantined memory is what the run time would otherwise go into
+_ENV = {"ASAN_OPTIONS": hrun.SAN_ENV["ASAN_OPTIONS"] + ":quarantine_size_mb=32"}
 _FIXED_NOFD = {c: v for c, v in wire.BASIC_FIXED.items() if c != ord('h')}
 
 
@@ -119,7 +122,7 @@ def _special_body(rng, stats):
         stats["special:long-string"] += 1
         return rng.choice([(b"s", [s[:n]]), (b"ys", [1, s[:n]]), (b"as", [[s[:n], b"", s[:7]]]), (b"v", [Variant(b"s", s[:n])])])
     if k == "long-bytes":
-        n = rng.choice([1000, 4096, 65536, 66000])
+        n = rng.choice([300, 1000, 4096, 4096, 20000])
         code = rng.choice(b"yqutd")
         size, f = wire.BASIC_FIXED[code]
         vals = [rng.getrandbits(8 * size) for _ in range(max(1, n // size))]
@@ -278,7 +281,7 @@ def _skeleton(sig, maxdepth):
           ord('t'): "8", ord('d'): "8", ord('s'): "s", ord('o'): "s", ord('g'): "g"}
     classes = "".join(sorted(set(al[c] for c in sig if c in al)))
     db = 0 if maxdepth == 0 else (1 if maxdepth == 1 else (2 if maxdepth <= 3 else (3 if maxdepth <= 8 else (4 if maxdepth < 32 else 5))))
-    return (len(ts), db, kinds, classes)
+    return (min(len(ts), 3), db, kinds, classes if len(classes) <= 1 else "mixed")
 
 
 def _merge(rng, groups):
@@ -683,7 +686,7 @@ def _worker(args):
             progs.append(g)
     for k, v in stats.items():
         part.count(k, v)
-    res = hrun.run_cases(exe, [ln for ln, _ in progs], per_batch_timeout=900)
+    res = hrun.run_cases(exe, [ln for ln, _ in progs], env=_ENV, per_batch_timeout=900)
     for i, (line, exp) in enumerate(progs):
         part.evaluations += 1
         part.count("programs")
@@ -718,14 +721,14 @@ def run(tier, seed, replay=None, scale=1.0):
         else:
             line = w["program"]
             exp = _exp_from_bytes(bytes.fromhex(w["expect_hex"]))
-            res = hrun.run_cases(exe, [line])
+            res = hrun.run_cases(exe, [line], env=_ENV)
             part.evaluations = 1
             judge(part, line, exp, res[0])
         part.sig("replay", 1)
         part.sig("replay", 2)
         r.merge(part)
         return r.finish()
-    total = int((15000 if tier == "quick" else 400000) * scale)
+    total = int((60000 if tier == "quick" else 1200000) * scale)
     nshards = 16 if tier == "quick" else 256
     per = max(1, total // nshards)
     shards = [(seed, i, per, exe) for i in range(nshards)]
